@@ -46,10 +46,12 @@ def judge(ctx, items, res, part):
 
 def run(ctx):
     rng = random.Random(ctx.seed)
-    # family 1: all corpora over 3 tokens (<= 2 docs of <= 3 tokens quick; 3 docs thorough) x pruning configurations
+    # family 1: all corpora over 3 tokens (<= 2 docs of <= 3 tokens) x pruning configurations
     cfgs = vocab_cfg.build_cfgs(ctx.seed + 3, ctx.pick(48, 160))
-    items = emit(ctx, cfgs, dict(V=3, MaxLen=ctx.pick(3, 3), MaxDocs=ctx.pick(2, 3), Boundary=False, MaxTotal=1),
-                 "Vocab exhaustive V=3")
+    items = emit(ctx, cfgs, dict(V=3, MaxLen=3, MaxDocs=2, Boundary=False, MaxTotal=1), "Vocab exhaustive V=3")
+    if not ctx.quick:
+        # three documents (document-frequency bounds with a 1/3, 2/3 grid): shorter documents, a third of the configurations
+        items += emit(ctx, cfgs[::3], dict(V=3, MaxLen=2, MaxDocs=3, Boundary=False, MaxTotal=1), "Vocab exhaustive V=3, 3 docs")
     if len(items) < 1000:
         raise MachineryError("Vocab emitted too few instances")
     for it in items:
